@@ -503,11 +503,20 @@ func runParse(c *ctx, prop string) error {
 	if prop == "C13" {
 		typeErrors = 60
 	}
+	if c.only != nil {
+		n = 1
+	}
 	for i := 0; i < n; i++ {
 		o := &gen.Opts{R: rng, Str: parseStr, Key: gen.DefaultKey, UntypedExotic: true, TypeErrors: typeErrors, MaxGroupDepth: 4, MaxMapSize: 16, Hist: c.res.Hist,
 			GroupBias: 8}
-		doc := o.Pipeline()
-		src, style := renderStyles(rng, doc)
+		var src []byte
+		style := "given"
+		if c.only != nil {
+			src = c.only
+		} else {
+			doc := o.Pipeline()
+			src, style = renderStyles(rng, doc)
+		}
 		if src == nil {
 			continue
 		}
@@ -651,6 +660,9 @@ func runParse(c *ctx, prop string) error {
 				break
 			}
 		}
+	}
+	if c.only != nil {
+		return nil
 	}
 	if prop == "C13" {
 		c13ByteLevel(c, rng, shards)
